@@ -210,7 +210,11 @@ func (e *Exec) load(st *State, pv Val, ty types.Type) Val {
 		return Val{T: e.typed(c.Select(e.heapGet(st, n, s), p.obj), ty)}
 	case pElem:
 		n, s := e.memArr(p.elemT)
-		return Val{T: e.typed(c.Select(c.Select(e.heapGet(st, n, s), p.obj), p.idx), ty)}
+		t := c.Select(c.Select(e.heapGet(st, n, s), p.obj), p.idx)
+		if len(p.path) > 0 {
+			t, _ = e.pathGet(t, p.elemT, p.path)
+		}
+		return Val{T: e.typed(t, ty)}
 	case pBox:
 		return Val{T: e.loadObj(st, p.obj, ty)}
 	}
@@ -243,6 +247,9 @@ func (e *Exec) store(st *State, pv Val, ty types.Type, v *Term) {
 		n, s := e.memArr(p.elemT)
 		e.frameCheck(st, n, p.obj)
 		m := e.heapGet(st, n, s)
+		if len(p.path) > 0 {
+			v = e.pathSet(c.Select(c.Select(m, p.obj), p.idx), p.elemT, p.path, v)
+		}
 		e.heapSet(st, n, c.Store(m, p.obj, c.Store(c.Select(m, p.obj), p.idx, v)))
 	case pBox:
 		e.storeObj(st, p.obj, ty, v)
